@@ -257,7 +257,7 @@ def _cov_start():
 
 def _cov_save(force=False):
     cov = _COV[0]
-    if cov is not None and (force or time.time() - _COV[1] > 3):
+    if cov is not None and (force or time.time() - _COV[1] > 0.25):
         cov.save()
         _COV[1] = time.time()
 
@@ -286,7 +286,7 @@ def _worker(job):
                  '%s [%s %s]\n%s' % (e, origin, where, traceback.format_exc()[-3000:]))
     r = ctx.result()
     r['wall'] = time.time() - t0
-    _cov_save(force=idx >= int(os.environ.get('VERIF_NJOBS', '0')) - 48)
+    _cov_save(force=idx >= int(os.environ.get('VERIF_NJOBS', '0')) - 200)
     return idx, r
 
 
